@@ -103,7 +103,7 @@ def run(res):
     for ci, (logic, K, t) in enumerate(base):
         for k in range(3):
             pr = presentation(rng, K, t, kinds[(ci + k) % 4])
-            jobs.append({'logic': logic, 'formula': pr['formula'], 'states': pr['states'],
+            jobs.append({'logic': logic, 'formula': pr['formula'], 'states': pr['states'], 'states_arg': pr['states_arg'],
                          'R': pr['R'], 'L': pr['L'], 'back': pr['back'], 'entry': 'text' if k == 2 else 'obj'})
             owner.append(ci)
     # the worker builds Kripke(S=states): to let R introduce states, pass only part of the states for some jobs
